@@ -33,8 +33,11 @@
 (*   DivUExact   (displacement_divergence u_cells +                        *)
 (*                boundary_displacement_divergence bc)[c] = (alpha:G)|c|   *)
 (*   GradPExact  (scalar_gradient p)[f] = -p alpha n_f                     *)
-(* C16 sub-case [mu, lam, neu, t, error, bcq, sq, sm, regular, solerr,     *)
-(*               uq, um, rq, rm]                                           *)
+(* C16 sub-case [mu, lam, neu, nc, t, error, bcq, sq, sm, regular, solerr,  *)
+(*               uq, um, rq, rm]   neu = fully Neumann faces, nc = further *)
+(*   Neumann components <<f, k>> (component-wise mixes, e.g. rolling);     *)
+(*   boundary data: u_k = t_k in Dirichlet components, zero traction in    *)
+(*   Neumann components; at least one face Dirichlet in every component    *)
 (*   ZeroStress  (stress u_t + bound_stress bc_t)[f] = 0 on every face     *)
 (*   SolveReturnsTranslation   the solution of the assembled system is     *)
 (*               u = t in every cell, rotation = 0, solid pressure = 0     *)
@@ -199,11 +202,15 @@ JudgeC16 ==
             sok == ok /\ S.solerr = ""
             shape == (~ok) \/ (/\ QShape(S.sq, NF) /\ MShape(S.sm, NF, ND) /\ QShape(S.bcq, NF)
                                /\ (~sok) \/ (QShape(S.uq, NC) /\ MShape(S.um, NC, ND) /\ Len(S.rq) = Len(S.rm)))
-            infam == Neu \subseteq bfaces /\ Neu # bfaces /\ S.mu > 0 /\ S.lam > 0
+            NeuC == SetOf(S.nc)     \* further Neumann components <<f, k>> (component-wise mixes)
+            infam == CompAdmissible(Gr, bfaces, Neu, NeuC) /\ S.mu > 0 /\ S.lam > 0
+            mixed == Neu # {} \/ NeuC # {}
             tt == <<R(S.t[1]), R(S.t[2]), R(IF ND = 3 THEN S.t[3] ELSE 0)>>
             NR == Len(S.rq)
-            \* boundary data consistent with the translation: u = t on Dirichlet faces, zero traction on Neumann faces
-            inputs == S.bcq = [f \in 1..NF |-> IF f \in bfaces \ Neu THEN tt ELSE RVZero]
+            \* boundary data consistent with the translation: u_k = t_k in every Dirichlet component, zero traction in
+            \* every Neumann component
+            isdir(f, k) == f \in bfaces /\ f \notin Neu /\ <<f, k>> \notin NeuC
+            inputs == S.bcq = [f \in 1..NF |-> [k \in 1..3 |-> IF k <= ND /\ isdir(f, k) THEN tt[k] ELSE RZero]]
         IN
           /\ Assert(shape, <<"malformed case", ci, j>>)
           /\ IF ~infam THEN TellS(j, "outside", 1)
@@ -212,7 +219,7 @@ JudgeC16 ==
               /\ Verdict(j, "ZeroStress",
                          ok /\ S.sq = ZeroTable(NF),
                          (~ok) \/ AnyFar(ZeroTable(NF), S.sm, 1..NF, ND))
-              /\ IF ok /\ Neu # {} /\ ~S.regular THEN TellS(j, "outside", 2)
+              /\ IF ok /\ mixed /\ ~S.regular THEN TellS(j, "outside", 2)
                  ELSE Verdict(j, "SolveReturnsTranslation",
                               sok /\ S.uq = [c \in 1..NC |-> tt] /\ S.rq = [i \in 1..NR |-> RZero],
                               (~sok) \/ AnyFar([c \in 1..NC |-> tt], S.um, 1..NC, ND)
